@@ -3,7 +3,7 @@
    over the regenerated ParseQuery tables). *)
 From Coq Require Import ZArith List Bool.
 From Verif Require Import Common.Bytes Extracted.Extracted
-  QueryCodec.Lexer QueryCodec.Scalars QueryCodec.Grammar QueryCodec.Dispatch QueryCodec.QsSide.
+  QueryCodec.Lexer QueryCodec.Scalars QueryCodec.Grammar QueryCodec.Dispatch.
 Import ListNotations.
 Local Open Scope Z_scope.
 
